@@ -40,12 +40,15 @@ ACTIONS = ["CycleStart", "FindCandidates", "JobReject", "JobStart", "Download",
 CODE = {0: "ok", 1: "unsafe-delete", 2: "dup", 3: "lost", 4: "foreign-or-altered"}
 
 
-def cfg_text(nfiles, minfiles, maxbatch, maxkills, maxcycles, emit, invs, view, as_written=False):
+def cfg_text(nfiles, minfiles, maxbatch, maxkills, maxcycles, emit, invs, view, as_written=False,
+             modes=("none", "tags", "shrink"), tag_union=True):
     # as_written: the code before the fix commits e2ad6be / db8e9fa (negative control)
+    # tag_union=False: dedup on the newest tagged input's arc:tags only (negative control)
     return ("SPECIFICATION Spec\nCONSTANTS\n  NFiles = %d\n  MinFiles = %d\n  MaxBatch = %d\n  MaxKills = %d\n"
-            "  MaxCycles = %d\n  DedupModes = {FALSE, TRUE}\n  RecoverOnCrash = %s\n  ListAllEntries = %s\n  Emit = %s\n"
+            "  MaxCycles = %d\n  DedupModes = {%s}\n  TagUnion = %s\n  RecoverOnCrash = %s\n  ListAllEntries = %s\n  Emit = %s\n"
             "INVARIANTS %s\n%sCHECK_DEADLOCK FALSE\n"
-            % (nfiles, minfiles, maxbatch, maxkills, maxcycles, "FALSE" if as_written else "TRUE",
+            % (nfiles, minfiles, maxbatch, maxkills, maxcycles, ", ".join('"%s"' % m for m in modes),
+               "TRUE" if tag_union else "FALSE", "FALSE" if as_written else "TRUE",
                "TRUE" if as_written else "FALSE",
                "TRUE" if emit else "FALSE", invs, "VIEW view\n" if view else ""))
 
@@ -80,22 +83,23 @@ def run(ctx):
     for (label, nf, mf, mb, mk, mcyc, cap) in bounds:
         name = "Gen_%s.cfg" % label
         gen = ctx.tlc("compaction", "Compaction", name, coverage=True, timeout=1500, workers=4,
-                      files={name: cfg_text(nf, mf, mb, mk, mcyc, True, "TypeOK DeleteSafe EmitInv", False)})
+                      files={name: cfg_text(nf, mf, mb, mk, mcyc, True, "TypeOK DeleteSafeExceptOpen EmitInv", False,
+                                             modes=("none", "tags", "shrink") if nf >= 4 else ("none", "tags"))})
         if not gen.traces:
             raise InfraError("generator %s emitted nothing" % name)
         for a, v in gen.coverage.items():
             fired[a] = fired.get(a, 0) + v[0]
         mc_notes.append({"cfg": name, "bounds": {"NFiles": nf, "MinFiles": mf, "MaxBatch": mb, "MaxKills": mk,
-                                                  "MaxCycles": mcyc, "DedupModes": [False, True]},
+                                                  "MaxCycles": mcyc, "DedupModes": ["none", "tags"] + (["shrink"] if nf >= 4 else [])},
                          "distinct": gen.distinct, "generated": gen.generated, "depth": gen.depth,
-                         "invariants": ["TypeOK", "DeleteSafe"], "terminal_behaviours": len(gen.traces)})
+                         "invariants": ["TypeOK", "DeleteSafeExceptOpen"], "terminal_behaviours": len(gen.traces)})
         cand = []
         seen = set()
         if label == "small":
-            directed_pool = [hist_to_cycles(h) for h in gen.traces if h[0]["dedup"]]
+            directed_pool = [hist_to_cycles(h) for h in gen.traces if h[0]["dedup"] == "shrink"]
         for h in gen.traces:
             cyc = hist_to_cycles(h)
-            dedup = bool(h[0]["dedup"])
+            dedup = h[0]["dedup"]
             key = (dedup, json.dumps(cyc, sort_keys=True))
             if key in seen:
                 continue
@@ -104,8 +108,9 @@ def run(ctx):
             cand.append((kills, dedup, key[1], cyc))
         # deterministic order; schedules with fewer kills first, then a seed-dependent rotation of the rest
         cand.sort(key=lambda t: (t[0], t[1], t[2]))
+        # the "shrink" class (files with different arc:tags sets): every <=1-kill schedule, the rest only in thorough
         few = [c for c in cand if c[0] <= 1]
-        rest = [c for c in cand if c[0] > 1]
+        rest = [c for c in cand if c[0] > 1 and (c[1] != "shrink" or not quick)]
         if rest:
             off = (ctx.seed * 7919) % len(rest)
             rest = rest[off:] + rest[:off]
@@ -115,8 +120,10 @@ def run(ctx):
         for (kills, dedup, _, cyc) in picked:
             if n >= cap:
                 break
-            if dedup:
+            if dedup == "tags":
                 modes = [modes_dedup[(n + ctx.seed) % 3]] if (quick or label == "large") else modes_dedup
+            elif dedup == "shrink":
+                modes = ["tags_evolve"]
             else:
                 modes = ["none"]
             for m in modes:
@@ -127,7 +134,7 @@ def run(ctx):
     # directed input for the open finding "compacted output carries no arc:tags": kill job 1 before its manifest, let the
     # first half finish, kill the second half -> the next cycle compacts [raw3, raw4, half-output1]
     want = [[1, 0, 1], [0], []]
-    hit = [s for s in scen if s["label"].startswith("small/") and s["dedup"] != "none"
+    hit = [s for s in scen if s["label"] == "small/tags_evolve"
            and [[j["gate"] for j in c["jobs"]] for c in s["cycles"]] == want]
     if not hit:
         base = [c for c in directed_pool if [[j["gate"] for j in cc["jobs"]] for cc in c] == want]
@@ -136,27 +143,36 @@ def run(ctx):
         cyc = base[0]
     else:
         cyc = hit[0]["cycles"]
-    (_, nf, mf, mb, _, _, _) = bounds[0]
-    scen.append({"id": len(scen) + 1, "nfiles": nf, "minfiles": mf, "maxbatch": mb, "dedup": "tags_evolve",
-                 "seed": ctx.seed, "cycles": cyc, "label": "small/tags_evolve"})
+    if not hit:
+        (_, nf, mf, mb, _, _, _) = bounds[0]
+        scen.append({"id": len(scen) + 1, "nfiles": nf, "minfiles": mf, "maxbatch": mb, "dedup": "tags_evolve",
+                     "seed": ctx.seed, "cycles": cyc, "label": "small/tags_evolve"})
     for a in ACTIONS:
         if fired.get(a, 0) == 0:
             raise InfraError("vacuous model: action %s never fired (coverage %s)" % (a, fired))
     # the property itself as an invariant of the model: a counterexample is a candidate schedule, never a verdict
     (label, nf, mf, mb, mk, mcyc, _) = bounds[0]
     mp = ctx.tlc("compaction", "Compaction", "MCP.cfg", timeout=900, workers=4, allow_violation=True,
-                 files={"MCP.cfg": cfg_text(nf, mf, mb, mk, mcyc, False, "ConservedAfterCleanCycle", True)})
+                 files={"MCP.cfg": cfg_text(nf, mf, mb, mk, mcyc, False, "ConservedExceptOpen", True)})
     # negative control: the mechanisms as written before the two fix commits must be rejected by TLC
     nc = ctx.tlc("compaction", "Compaction", "MCP_aswritten.cfg", timeout=900, workers=4, allow_violation=True, coverage=True,
                  files={"MCP_aswritten.cfg": cfg_text(nf, mf, mb, mk, mcyc, False, "ConservedAfterCleanCycle", True, as_written=True)})
     if nc.violated != "ConservedAfterCleanCycle":
         raise InfraError("negative control: the as-written mechanisms (no crash-time manifest recovery, .part listed) no longer "
                          "violate ConservedAfterCleanCycle on the model (%s)" % nc.violated)
+    # negative control 2: dedup on the newest tagged file's arc:tags instead of the union, files with different tag sets,
+    # no kill at all -> rows differing only in the dropped tag collapse
+    nc2 = ctx.tlc("compaction", "Compaction", "MCP_newesttags.cfg", timeout=900, workers=2, allow_violation=True,
+                  files={"MCP_newesttags.cfg": cfg_text(nf, mf, mb, 0, mcyc, False, "ConservedAfterCleanCycle", True,
+                                                        modes=("shrink",), tag_union=False)})
+    if nc2.violated != "ConservedAfterCleanCycle":
+        raise InfraError("negative control: 'newest tagged file only' no longer violates ConservedAfterCleanCycle (%s)" % nc2.violated)
+    ctx.note("negative_control_newest_tags_only", {"violated": nc2.violated})
     ctx.note("negative_control_as_written", {"violated": nc.violated, "distinct_until_counterexample": nc.distinct})
     ctx.note("tlc_model_check", mc_notes)
     ctx.note("actions_fired", fired)
     ctx.note("property_as_model_invariant", ("counterexample found (candidate schedule only): %s" % mp.violated)
-             if mp.violated else "holds on the model")
+             if mp.violated else "holds on the model (classes none/tags; the shrink class reaches open finding 3)")
     ctx.log("TLC enumerated %d schedules to replay" % len(scen))
 
     # ---------------------------------------------------------------- build
